@@ -241,6 +241,44 @@ def worker(root):
                         cs = cs[1:]
                     consts[fn.name] = cs
     out["parser_consts"] = consts
+    # attributes (re)initialised by parse_data before its loop over the lines, with their values
+    resets = []
+    for node in ast.walk(tree):
+        if isinstance(node, ast.ClassDef) and node.name == "Parser":
+            for fn in node.body:
+                if isinstance(fn, ast.FunctionDef) and fn.name == "parse_data":
+                    for st in fn.body:
+                        if isinstance(st, (ast.For, ast.While)):
+                            break
+                        tgt, val = None, None
+                        if isinstance(st, ast.Assign) and len(st.targets) == 1:
+                            tgt, val = st.targets[0], st.value
+                        elif isinstance(st, ast.AnnAssign):
+                            tgt, val = st.target, st.value
+                        if (isinstance(tgt, ast.Attribute) and isinstance(tgt.value, ast.Name) and tgt.value.id == "self"
+                                and val is not None):
+                            try:
+                                resets.append([tgt.attr, to_pyval(ast.literal_eval(val))])
+                            except (ValueError, TranslateError):
+                                resets.append([tgt.attr, {"t": "str", "v": "<non-literal>"}])
+    out["parse_data_resets"] = resets
+    # does parse_statement go through the object's OWN parser and lexer (not PLY's module globals)?
+    own_parser, own_lexer = False, False
+    for node in ast.walk(tree):
+        if isinstance(node, ast.ClassDef) and node.name == "Parser":
+            for fn in node.body:
+                if isinstance(fn, ast.FunctionDef) and fn.name == "parse_statement":
+                    for c in ast.walk(fn):
+                        if isinstance(c, ast.Call) and isinstance(c.func, ast.Attribute) and c.func.attr == "parse":
+                            v = c.func.value
+                            own_parser = (isinstance(v, ast.Attribute) and isinstance(v.value, ast.Name)
+                                          and v.value.id == "self" and v.attr == "yacc")
+                            for k in c.keywords:
+                                if k.arg == "lexer" and isinstance(k.value, ast.Attribute) and isinstance(k.value.value, ast.Name) \
+                                        and k.value.value.id == "self" and k.value.attr == "lexer":
+                                    own_lexer = True
+    out["own_parser"] = own_parser
+    out["own_lexer"] = own_lexer
 
     # ---- the regexes really used by the pre-processor, recorded from a live run ---------------
     import re as real_re
@@ -467,6 +505,8 @@ def emit(d, pt, outdir):
     o.append("Definition lex_string_rules : list string := %s.\n" % clist([cstr(x) for x in d["lex_string_rules"]]))
     o.append("Definition reset_attrs : list (string * pyval) :=\n  %s.\n" % clist(["(%s, %s)" % (cstr(k), cpyval(v)) for k, v in d["reset_attrs"]]))
     o.append("Definition modes : list string := %s.\n" % clist([cstr(x) for x in d["modes"]]))
+    o.append("Definition own_parser : bool := %s.\nDefinition own_lexer : bool := %s.\n" % ("true" if d["own_parser"] else "false", "true" if d["own_lexer"] else "false"))
+    o.append("Definition parse_data_resets : list (string * pyval) :=\n  %s.\n" % clist(["(%s, %s)" % (cstr(k), cpyval(v)) for k, v in d["parse_data_resets"]]))
     if write_if_changed(os.path.join(outdir, "Tokens.v"), "\n".join(o)):
         changed.append("Tokens.v")
 
